@@ -24,6 +24,10 @@ def c11(ck, tier, seed):
                       "TraceMV.tla (Kleene not/and/or, Lukasiewicz imp/equiv, ite as in the property) lifted pointwise over all "
                       "3^n assignments, eval against the node-by-node interpretation of the stored graph")
     _run(ck, "tdd", ["C11"], tier, seed)
+    # eval with 9..40 variables (two bits per level packed into words), identity order and a rotation
+    _run(ck, "tddwide", ["C11"], tier, seed + 3)
+    ck.cov["rule"] += ("; three variables under all 6 orders with reorderings in between; eval of x_i <op> x_j with 9..40 "
+                       "variables (eval.wide)")
 
 
 def c10(ck, tier, seed):
